@@ -50,8 +50,12 @@ def run(ctx):
         _framing(ctx, version)
     _document(ctx)
     _assembly(ctx)
+    # the grid's version reaches every nested writer (a 2.0 grid is never written with 3.0 spellings)
+    _zinc.version_threading(ctx, 'C01.D2', 'zincdumper')
+    _zinc.header_version(ctx, 'C01.D5', 'zincdumper')
     from . import c17
     c17._api(ctx, ctx.model, rule='C01.D7', only=('zincparser', 'zincdumper'))
+    c17._timezone_name(ctx, ctx.model, rule='C01.D7')
 
 
 def _exactness(ctx, templates):
